@@ -150,6 +150,14 @@ def _sync(ctx, R, T):
                 R.check(ok, "CLOSE", "%s|%s" % (f.qualname, norm_stmt(c)), "socket touched only when connected (closing twice is a no-op)", "`%s` runs even when the transport is not connected: close() is not idempotent" % norm_stmt(c), f.loc(n.ast))
     closes = [n for n in g.live_nodes() for c in node_calls(n) if call_attr(c) == "close" and varkey(unawait(c.func.value)) == selfn + "._connection"]
     R.check(len(closes) == 1, "CLOSE", f.qualname + "|closes-socket", "the socket is closed", "close() does not close the socket exactly once", f.loc())
+    # shutdown, when called, is shutdown(socket.SHUT_RDWR): anything else raises TypeError / leaves one direction open, and close() no longer completes
+    for n in g.live_nodes():
+        for c in node_calls(n):
+            if call_attr(c) == "shutdown" and varkey(unawait(c.func.value)) == selfn + "._connection":
+                t = T.term(f, n, c.args[0]) if len(c.args) == 1 and not c.keywords else None
+                import socket as _socket
+                okarg = t is not None and (t == ("c", _socket.SHUT_RDWR) or (t[0] in ("ext", "attr", "p") and "SHUT_RDWR" in str(t)))
+                R.check(okarg, "CLOSE", "%s|shutdown-both" % f.qualname, "shutdown(SHUT_RDWR)", "the socket is shut down with `%s`, not socket.SHUT_RDWR" % (src(c.args[0]) if c.args else "no argument"), f.loc(n.ast))
     # only OSError from shutdown is contained
     for n in g.nodes:
         if n.kind == "except":
